@@ -50,9 +50,26 @@ class Model(object):
     self.abandoned = []        # (name, inv) bodies abandoned by a timeout
     self.groups = []           # per group: dict(name, entered, teardown_phases, ...)
     self.probe = {}
+    self._td_ctx = False
+    # single-abort semantics (DESIGN.md, C03/C04): the abort takes effect at
+    # one of the enumerated points of the execution
+    self.abort_at = None       # index of the point at which the abort lands
+    self.points = 0            # points passed so far
+    self.aborted = False
+    self.abort_kind = None
 
   def count(self, k):
     self.probe[k] = self.probe.get(k, 0) + 1
+
+  def _point(self, kind):
+    """An abort point.  Returns True when the abort lands exactly here."""
+    k = self.points
+    self.points += 1
+    if self.abort_at is not None and k == self.abort_at and not self.aborted:
+      self.aborted = True
+      self.abort_kind = kind
+      return True
+    return False
 
   # ------------------------------------------------------------------ phases
   def _meas_pass(self, ph, beh):
@@ -88,8 +105,15 @@ class Model(object):
       if not v:
         self.count('run_if_false')
         return 'SKIP', False
+    if not self._td_ctx and self._point('prebody'):
+      # killed before the body started: a record, no invocation
+      self.records.append((name, 'ERROR', S.name if S is not None else None, 'KILLED'))
+      return 'EXC:KILLED', True
     inv = self.inv[name] = self.inv.get(name, 0) + 1
     self.invocations.append((name, inv))
+    if not self._td_ctx and self._point('body'):
+      self.records.append((name, 'ERROR', S.name if S is not None else None, 'KILLED'))
+      return 'EXC:KILLED', True
     beh = ph['beh'][min(inv - 1, len(ph['beh']) - 1)]
     T = o['timeout_s'] if o['timeout_s'] is not None else DEFAULT_TIMEOUT
     hang = beh.get('hang')
@@ -179,8 +203,14 @@ class Model(object):
     o = ph['opts']
     L = o['repeat_limit'] or 3
     i = 1
+    self._td_ctx = td
     while True:
       is_last = i >= L
+      if i > 1 and not td and self._point('iter'):
+        # the repeat loop notices the stop request: 'timeout' without invoking
+        res, wrote = 'TIMEOUT', False
+        break
+      self._td_ctx = td
       res, wrote = self._once(ph, S, is_last)
       rep = False
       if res == 'TIMEOUT' and o['repeat_on_timeout']:
@@ -261,10 +291,14 @@ class Model(object):
     if td:
       ret = CONTINUE
       for n in nodes or []:
+        self._point('td_boundary')
         if self.run_node(n, S, True) == TERMINAL:
           ret = TERMINAL
       return ret
     for n in nodes or []:
+      self._point('boundary')
+      if self.aborted:
+        return TERMINAL
       r = self.run_node(n, S, False)
       if r != CONTINUE:
         return r
@@ -376,6 +410,7 @@ class Model(object):
     # stop_on_first_failure is a rule of the node executor, not of test_start
     self.s = dict(self.s, stop_on_first_failure=False, conf_stop_on_first_failure=False)
     try:
+      self._point('boundary')
       return self.run_phase(ts, None, False)
     finally:
       self.s = dict(self.s, stop_on_first_failure=saved[0], conf_stop_on_first_failure=saved[1])
@@ -401,3 +436,20 @@ class Model(object):
     if not out:
       out.add('PASS')
     return out
+
+
+def abort_variants(spec, limit=400):
+  """All invocation sequences a single abort can legitimately produce.
+
+  Returns (set of tuples, number of points).  The abort-free sequence is
+  included (an abort that arrives after the last node changes nothing).
+  """
+  base = Model(spec).run()
+  out = {tuple(base.invocations)}
+  n = min(base.points, limit)
+  for k in range(n):
+    m = Model(spec)
+    m.abort_at = k
+    m.run()
+    out.add(tuple(m.invocations))
+  return out, base.points
